@@ -5,7 +5,7 @@ set -u
 cd "$(dirname "$0")"
 export PATH=/opt/veriftools/go1.26.8/bin:$PATH GOFLAGS=-mod=mod GOPROXY=off GOSUMDB=off GOTOOLCHAIN=local GOWORK=off
 PROP="$1"; TIER="${2:-${VERIF_TIER:-quick}}"; shift; shift || true
-./build.sh >/dev/null || { echo "checker build failed"; echo "VIOLATION property=$PROP replay=/verif/evidence/$PROP.violations.json"; exit 1; }
+./build.sh >/dev/null || { echo "checker build failed"; echo "VIOLATION property=$PROP replay=/verif/replay/$PROP.violations.json"; exit 1; }
 ONLY=""
 if [ "${1:-}" = "--only" ]; then ONLY="-only $2"; fi
 REPO="${GABI_REPO:-/repo}"
